@@ -119,10 +119,17 @@ def read_text(
             blocks = []
             for start in range(0, len(files), files_per_partition):
                 block_files = files[start : (start + files_per_partition)]
-                block_lines = delayed(concat)(
-                    delayed(map)(
-                        partial(file_to_blocks, include_path, delimiter=linedelimiter),
-                        block_files,
+                # A partition has to be a list: ``concat(map(...))`` is a one-shot
+                # iterator, which the second of two consumers of this task finds
+                # exhausted
+                block_lines = delayed(list)(
+                    delayed(concat)(
+                        delayed(map)(
+                            partial(
+                                file_to_blocks, include_path, delimiter=linedelimiter
+                            ),
+                            block_files,
+                        )
                     )
                 )
                 blocks.append(block_lines)
